@@ -156,7 +156,7 @@ def make_state(seed):
         if with_body:
             src += "\n    def __init__(self, %sextra: int = 1):" % ("/, " if ch.chance("posonly", 0.4) else "") + "\n        \"\"\"\n        Construct.\n\n        :param extra: the extra\n        \"\"\"\n        self.extra = extra\n"
     else:
-        src = render.render_argparse(desc)
+        src = render.render_argparse(desc, docstring=not (desc.get("returns") is None and ch.chance("nodoc", 0.3)))
     if kind in ("function", "method_in_class") and ch.chance("emptydoc", 0.15):
         # a docstring that is present but empty, every parameter defaulted (what emit.function writes for a bare description)
         first = "self, " if kind == "method_in_class" else ""
